@@ -59,6 +59,7 @@ class Frame:
     t_done: float | None = None  # filled in from the run
     name: str = ""
     echo: bytes = b""  # ack/nack: echoed previous message data
+    delay: float = 0.0  # released this many (virtual) seconds after its trigger
 
 
 class HSFZ:
@@ -101,7 +102,7 @@ class HSFZ:
         if name.startswith("fdata"):  # foreign pair
             pl = bytes.fromhex(name.split(":")[1])
             who = name.split(":")[0]
-            pair = bytes([O, T]) if who == "fdataS" else bytes([E, O])
+            pair = bytes([O, T]) if who == "fdataS" else bytes([T, E]) if who == "fdataR" else bytes([E, O])
             return Frame("keep", self.hdr(2 + len(pl), 1) + pair + pl, trigger, payload=pl, name=name)
         if name == "alive0":
             return Frame("alive", self.hdr(0, 0x12), trigger, name=name)
@@ -213,7 +214,7 @@ class DoIP:
         if name.startswith("fdata"):
             pl = bytes.fromhex(name.split(":")[1])
             who = name.split(":")[0]
-            pair = struct.pack("!HH", O, T) if who == "fdataS" else struct.pack("!HH", E, O)
+            pair = struct.pack("!HH", O, T) if who == "fdataS" else struct.pack("!HH", T, E) if who == "fdataR" else struct.pack("!HH", E, O)
             body = pair + pl
             return Frame("keep", self.hdr(0x8001, len(body)) + body, trigger, payload=pl, name=name)
         if name == "alive":
@@ -292,22 +293,29 @@ class Gateway(Peer):
         if self.activated:
             self.release(0)
 
+    def _emit(self, group: list[Frame]) -> None:
+        blob = b"".join(f.raw for f in group)
+        cuts = seg_cuts(self.seg, group, self.pos)
+        self.send(blob, cuts)
+        off = self.pos
+        for f in group:
+            f.start = off  # type: ignore[attr-defined]
+            off += len(f.raw)
+            f.end = off  # type: ignore[attr-defined]
+        self.pos = off
+
     def release(self, k: int) -> None:
         if k <= self.released:
             return
         for kk in range(self.released + 1, k + 1):
             group = [f for f in self.frames if f.trigger == kk]
-            if not group:
-                continue
-            blob = b"".join(f.raw for f in group)
-            cuts = seg_cuts(self.seg, group, self.pos)
-            self.send(blob, cuts)
-            off = self.pos
-            for f in group:
-                f.start = off  # type: ignore[attr-defined]
-                off += len(f.raw)
-                f.end = off  # type: ignore[attr-defined]
-            self.pos = off
+            now = [f for f in group if f.delay <= 0]
+            if now:
+                self._emit(now)
+            # frames with a delay follow later (stream order = time order); the explorer still owns their delivery
+            for d in sorted({f.delay for f in group if f.delay > 0}):
+                late = [f for f in group if f.delay == d]
+                self.conn.loop.call_later(d, self._emit, late)
         self.released = k
 
     def on_data(self, data: bytes) -> None:
@@ -360,7 +368,7 @@ class Obs:
 def build(item: dict[str, Any], box: dict[str, Any]) -> Any:
     proto = make_proto(item)
     writes = [bytes.fromhex(a) for op, a in item["program"] if op == "write"]
-    frames = proto.connect_frames() + [proto.frame(n, t, writes) for n, t in item["frames"]]
+    frames = proto.connect_frames() + [mkframe(proto, spec, writes) for spec in item["frames"]]
     ncf = len(proto.connect_frames())
 
     def scenario(run: Run) -> None:
@@ -445,6 +453,13 @@ def build(item: dict[str, Any], box: dict[str, Any]) -> Any:
         run.finish = fin  # type: ignore[attr-defined]
 
     return scenario
+
+
+def mkframe(proto: Any, spec: Any, writes: list[bytes]) -> Frame:
+    f = proto.frame(spec[0], spec[1], writes)
+    if len(spec) > 2:
+        f.delay = float(spec[2])
+    return f
 
 
 def make_proto(item: dict[str, Any]) -> Any:
@@ -727,7 +742,7 @@ def conform(item: dict[str, Any], res: Result) -> None:
 
     proto = make_proto(item)
     writes = [bytes.fromhex(a) for op, a in item["program"] if op == "write"]
-    frames = proto.connect_frames() + [proto.frame(n, t, writes) for n, t in item["frames"]]
+    frames = proto.connect_frames() + [mkframe(proto, spec, writes) for spec in item["frames"]]
     gw = Gateway(proto, frames, item.get("seg", "one"), len(proto.connect_frames()))
 
     async def client(host: str, port: int) -> list[Any]:
